@@ -148,6 +148,8 @@ impl<'s> CharString<'s> {
 
 //@unit src/unicode.rs fn byte_start_end impl=^impl<'s>CharString<'s>$
 //@rule R10(num_bytes ;; count)
+    #[verifier::loop_isolation(false)]
+    #[verifier::loop_isolation(false)]
     pub fn byte_start_end(&self, n: usize) -> (r: (usize, usize))
         requires self.wf(), n < self.n(),
         ensures r.0 == pre(self.rle(), n as int),
@@ -223,6 +225,7 @@ impl<'s> CharString<'s> {
     }
 //@end
 //@unit src/unicode.rs fn char_byte_len impl=^impl<'s>CharString<'s>$
+    #[verifier::loop_isolation(false)]
     pub fn char_byte_len(&self, n: usize) -> (r: usize)
         requires self.wf(), n < self.n(),
         ensures r == len_at(self.rle(), n as int),
